@@ -4,14 +4,24 @@
 // comment-only, adds no code).
 package outputstream
 
-// Provisional (assumed) contract of Add as seen from the state machine: it
-// needs a non-empty batch, touches only the output stream's own state and
-// (no LevelDB I/O error) succeeds.
+// Add as seen from the state machine: it needs a non-empty batch, touches only
+// the output stream's own state, keeps the stream well-formed and (no LevelDB
+// I/O error) succeeds. Proved against the body below (plan C08); callers
+// (sendMessages) use the contract.
 //@ func OutputStream.Add
-//@   trusted
 //@   requires nonempty: os != nil && len(msgs) > 0
+//@   requires wf: wfOS(os) && wfLast(os)
 //@   ensures noerror: result == nil
-//@   modifies OutputStream.lastseen[os], OutputStream.batch[os], maptype(map[uint64]*messageBatch)
+//@   ensures wf: wfOS(os) && wfLast(os)
+//@   assume@after DB.Write#0 : no-io-error: callres == nil
+//@   modifies OutputStream.lastseen[os], OutputStream.batch[os], maptype(map[uint64]*messageBatch), leveldb.DB.seq[os.db]
+
+// The size computation of the hand-written encoder is not verified (trusted: it does not panic and
+// does not touch the stream); see DESIGN.md, C18.
+//@ func messageBatch.marshal
+//@   trusted
+//@   requires m != nil
+//@   modifies
 
 // C18 (part): decoding a batch gives every message its own recipient set - a
 // freshly made map, distinct from the map of every other message of the
@@ -37,7 +47,7 @@ package outputstream
 // (getUnlocked, iterators) may find or miss any batch; only the shape of what
 // is stored is fixed: every stored batch holds at least one message (Add
 // and reset never write an empty batch).
-//@ pred wfOS(os *OutputStream) = os != nil && os.db != nil && os.messagesCache != nil && os.newMessage != nil && (forall k uint64 :: k in os.messagesCache ==> os.messagesCache[k] != nil && len(os.messagesCache[k].Messages) >= 1)
+//@ pred wfOS(os *OutputStream) = os != nil && os.db != nil && os.messagesCache != nil && os.newMessage != nil && (forall k uint64 :: k in os.messagesCache ==> os.messagesCache[k] != nil && allocated(os.messagesCache[k]) && len(os.messagesCache[k].Messages) >= 1)
 
 //@ func OutputStream.getUnlocked
 //@   requires wfOS(os)
@@ -63,3 +73,28 @@ package outputstream
 //@   modifies *
 //@   loop for
 //@     invariant wfOS(os) && ctx != nil && current != nil && len(current.Messages) >= 1
+
+// The writer side. lastseen is the in-memory copy of the newest batch and is
+// never empty; Add needs a non-empty batch (sendMessages never passes an
+// empty one); Delete of the newest batch re-points lastseen to the batch
+// before it, which exists because the sentinel batch 0 is never deleted
+// (assumed at the two iterator steps, where the code itself panics otherwise).
+//@ pred wfLast(os *OutputStream) = len(os.lastseen.Messages) >= 1
+//@ func OutputStream.LastSeen
+//@   requires wfOS(os)
+//@   modifies
+//@ func OutputStream.Delete
+//@   requires wfOS(os) && wfLast(os)
+//@   ensures wf: wfOS(os) && wfLast(os)
+//@   assume@after iterator.Iterator.Last#0 : never-empty: callres
+//@   assume@after iterator.Iterator.Prev#0 : sentinel-kept: callres
+//@   assume@after unmarshalMessageBatch#0 : stored-by-add: len(callres.Messages) >= 1
+//@   modifies *
+
+// A new stream is well-formed: database open, cache empty, lastseen is the sentinel batch 0.
+//@ func NewOutputStream
+//@   ensures wf: result1 == nil ==> result0 != nil && wfOS(result0) && wfLast(result0)
+//@ func OutputStream.reset
+//@   requires os != nil && os.messagesCache != nil && os.newMessage != nil && (forall k uint64 :: !(k in os.messagesCache))
+//@   ensures wf: result == nil ==> wfOS(os) && wfLast(os)
+//@   modifies *
